@@ -62,7 +62,14 @@ class LossAI:
                     return AV("SIGNED", True)
                 if a.kind == "MONO" and b.kind == "MONO" and a.mono == b.mono and a.zero != b.zero:
                     return AV("SIGNED", True)
+                if a.kind == "MONO" and b.kind == "MONO" and a.zero != b.zero:
+                    return AV("OFFDIAG")  # g(pred) - h(true) with g != h: not zero at pred == true
+                if a.kind in ("PRED", "TRUE") and b.kind == "CONST":
+                    return AV(a.kind + "+", mono="-" + norm(e.right))
                 return AV("UNKNOWN")
+            if isinstance(e.op, ast.Add) and ({a.kind, b.kind} == {"PRED", "TRUE"} or (a.kind == "MONO" and b.kind == "MONO" and a.zero != b.zero)):
+                # pred + true (or g(pred) + g(true)): does not vanish where the prediction reproduces the data
+                return AV("OFFDIAG")
             if isinstance(e.op, ast.Add):
                 # g(x + c): keep the argument's identity for monotone wrappers
                 if a.kind in ("PRED", "TRUE") and b.kind == "CONST":
@@ -89,12 +96,16 @@ class LossAI:
             if isinstance(e.op, ast.Div):
                 if a.kind in ("SIGNED", "RATIO"):
                     return AV("RATIO", True)
+                if a.kind == "OFFDIAG" and b.kind in ("PRED", "TRUE", "CONST", "NONNEG"):
+                    return AV("OFFDIAG")
                 if a.kind == "NONNEG" and b.kind in ("NONNEG", "CONST"):
                     return AV("NONNEG", a.zero, False)
                 return AV("UNKNOWN")
             if isinstance(e.op, ast.Pow) and isinstance(e.right, ast.Constant) and e.right.value == 2:
                 if a.kind in ("SIGNED", "RATIO"):
                     return AV("NONNEG", True)
+                if a.kind == "OFFDIAG":
+                    return AV("NONNEG", False)
                 return AV("NONNEG", a.zero, a.hom) if a.kind in ("NONNEG", "NONPOS") else AV("UNKNOWN")
             return AV("UNKNOWN")
         if isinstance(e, ast.Call):
@@ -107,6 +118,8 @@ class LossAI:
             if fn in EVEN_FNS:
                 if a.kind in ("SIGNED", "RATIO"):
                     return AV("NONNEG", True)
+                if a.kind == "OFFDIAG":
+                    return AV("NONNEG", False)
                 if a.kind in ("NONNEG", "NONPOS"):
                     return AV("NONNEG", a.zero, a.hom)
                 if a.kind == "PRED":
@@ -139,6 +152,10 @@ def verdict(v: AV) -> tuple[str, str]:
         return "OK", "non-negative and zero when the prediction reproduces the data"
     if v.kind in ("SIGNED", "RATIO"):
         return "BAD", "signed (not bounded below) in the prediction: a prediction far on one side of the data gets an arbitrarily low loss"
+    if v.kind == "OFFDIAG":
+        return "BAD", "built from prediction + data (or differently shifted terms): signed and not zero when the prediction reproduces the data"
+    if v.kind == "NONNEG" and v.zero is False:
+        return "BAD", "non-negative but not zero when the prediction reproduces the data: its minimum lies elsewhere (e.g. at prediction == -data, or at a small prediction)"
     if v.kind == "NONPOS" and v.hom:
         return "BAD", "non-positive and decreasing in the size of the prediction: merely being large is rewarded"
     if v.kind == "NONPOS":
@@ -500,13 +517,13 @@ class C20(Check):
         plain_ = [ret_(st) for st in lp_ if ("self.standard_scale", False) in st.conds]
         t = ("return " + scaled_[0] if scaled_ and len(set(scaled_)) == 1 else "") + " | " + ("return " + plain_[0] if plain_ and len(set(plain_)) == 1 else "")
         ds = norm(m["data_scaled"].body[-1]) if "data_scaled" in m else ""
-        if "return self.loss_fn(self.data_scaled, (prediction - self.mean) / self.scale)" in t and ds == "return (self.data - self.mean) / self.scale" \
+        if scaled_ and set(scaled_) == {"self.loss_fn(self.data_scaled, (prediction - self.mean) / self.scale)"} and ds == "return (self.data - self.mean) / self.scale" \
                 and "return self.data.mean()" in norm(m["mean"]) and "return self.data.std()" in norm(m["scale"]):
             self.holds("L4", ABST, "_Settings.loss", "same-affine-map", loss, "(x - mean(data)) / std(data) applied to data and prediction alike")
         else:
             self.violated("L4", ABST, "_Settings.loss", "same-affine-map", loss, "data and prediction are scaled by different maps: the scaled loss is not zero at prediction == data",
                           witness="a perfect prediction has a non-zero standard-scaled residual")
-        if "return self.loss_fn(self.data, prediction)" in t:
+        if plain_ and set(plain_) == {"self.loss_fn(self.data, prediction)"}:
             self.holds("L4", ABST, "_Settings.loss", "unscaled-branch", loss, "loss_fn(data, prediction)")
         else:
             self.violated("L4", ABST, "_Settings.loss", "unscaled-branch", loss, "unscaled residual is not loss_fn(data, prediction)")
